@@ -21,6 +21,8 @@ case $V in
   baseline) FLAGS="-Wno-error"; EXTRA="-DPRIMITIV_BUILD_TESTS=ON -DCMAKE_BUILD_TYPE=RelWithDebInfo" ;;
   *) echo "unknown variant $V" >&2; exit 2 ;;
 esac
+# PV_COVERAGE=1 (tools/coverage.sh): gcov instrumentation, used only to look for unexercised code
+if [ -n "$PV_COVERAGE" ]; then FLAGS="$FLAGS --coverage"; fi
 if [ ! -f $B/build.ninja ] || [ "$(cat $B/.pv_repo 2>/dev/null)" != "$REPO" ]; then
   rm -rf $B; mkdir -p $B
   cmake -G Ninja -S $REPO -B $B $EXTRA -DCMAKE_CXX_FLAGS="$FLAGS" >$B.cmake.log 2>&1 || { cat $B.cmake.log >&2; exit 3; }
